@@ -225,7 +225,7 @@ def dictOf : Entry → List (String × Option Int)
 inductive JShape | nd (s : List Nat) | int (n : Nat)
   deriving Repr, DecidableEq
 
-inductive JItem | none | data (sh : JShape) (dt : DT) (vals : List SV) | dropped | err
+inductive JItem | none | data (sh : JShape) (dt : DT) (vals : List SV) | err
   deriving Repr, DecidableEq
 
 /-- one iteration of the constructor loop -/
@@ -240,8 +240,9 @@ def classifyJ : Entry → JItem
       | some m => .data (.nd [rows.length, m]) dt rows.flatten
       | none => .data (.int rows.flatten.length) dt rows.flatten   -- `shapes.append(len(flat),)` appends an int
   | .scal np dt v =>
-      if dt.isInt || dt.isFloat || (dt = .b && !np) then .data (.nd [1]) dt [v] else .dropped
-  | .dict _ => .dropped
+      -- int / float / np.integer / np.floating (a Python bool is an int); anything else: TypeError (fix 8558ef4)
+      if dt.isInt || dt.isFloat || (dt = .b && !np) then .data (.nd [1]) dt [v] else .err
+  | .dict _ => .err
 
 structure JPacked where
   flat : List SV
@@ -256,7 +257,6 @@ def packJGo : List JItem → Nat → Nat → Option JPacked
   | [], _, _ => some ⟨[], [], [], [], []⟩
   | .err :: _, _, _ => Option.none
   | .none :: r, i, off => (packJGo r (i + 1) off).map (fun p => { p with nones := i :: p.nones })
-  | .dropped :: r, i, off => packJGo r (i + 1) off
   | .data sh dt vals :: r, i, off =>
       (packJGo r (i + 1) (off + vals.length)).map (fun p =>
         { flat := vals ++ p.flat, dts := (if vals.isEmpty then p.dts else dt :: p.dts),
